@@ -353,7 +353,7 @@ def _written(path):
 def impl_from_envelope(tmp, eb, omit, dep, data):
     import suit_generator.cmd_cache_create as m
     m.log.disabled = True
-    d = tempfile.mkdtemp(prefix="fe-", dir=tmp)
+    d = core.shared_dir(tmp, "shared-fe")
     try:
         pin, pout, pc = os.path.join(d, "in.suit"), os.path.join(d, "out.suit"), os.path.join(d, "cache.bin")
         with open(pin, "wb") as fh:
@@ -378,7 +378,7 @@ class FileWritten(Exception):
 def impl_extract(tmp, data, name, replace, want_file):
     import suit_generator.cmd_payload_extract as m
     m.log.disabled = True      # "Payload not found" goes to stderr otherwise
-    d = tempfile.mkdtemp(prefix="pe-", dir=tmp)
+    d = core.shared_dir(tmp, "shared-pe")
     try:
         pin, pout, pp, pr = (os.path.join(d, x) for x in ("in.suit", "out.suit", "payload.bin", "replace.bin"))
         with open(pin, "wb") as fh:
